@@ -308,6 +308,9 @@ func Replaying() bool { return os.Getenv("VERIF_REPLAY") == "1" }
 // from VERIF_SEED. It verifies afterwards that the requested number of cases really ran.
 func Check(t *testing.T, s *SubCheck, quick, thorough int, prop func(*rapid.T)) {
 	t.Helper()
+	if f := envInt("VERIF_FACTOR", 1); f > 1 {
+		thorough *= f // per-check depth multiplier of the thorough tier (checks.d "thorough": {"factor": k})
+	}
 	n := Share(Scale(quick, thorough))
 	if Replaying() {
 		n = 1
